@@ -1,3 +1,4 @@
+use std::future::Future;
 use std::net::Ipv4Addr;
 use std::net::SocketAddr;
 use std::net::SocketAddrV4;
@@ -49,7 +50,7 @@ pub async fn startup(config: &ServerConfig<SslConfig>) -> anyhow::Result<()> {
                 user_manager.add_user(ServerUser::try_from(user).map_err(|e| anyhow!(e))?);
             }
             let user_manager = Arc::new(user_manager);
-            tokio::join!(startup_udp::<16>(config, &user_manager), startup_tcp::<16>(config, &user_manager))
+            both(startup_udp::<16>(config, &user_manager), startup_tcp::<16>(config, &user_manager)).await
         }
         CipherKind::Aes256Gcm
         | CipherKind::Aead2022Blake3Aes256Gcm
@@ -61,16 +62,17 @@ pub async fn startup(config: &ServerConfig<SslConfig>) -> anyhow::Result<()> {
                 user_manager.add_user(ServerUser::try_from(user).map_err(|e| anyhow!(e))?);
             }
             let user_manager = Arc::new(user_manager);
-            tokio::join!(startup_udp::<32>(config, &user_manager), startup_tcp::<32>(config, &user_manager))
+            both(startup_udp::<32>(config, &user_manager), startup_tcp::<32>(config, &user_manager)).await
         }
         CipherKind::Unknown => bail!("unknown cipher kind"),
     };
-    match res {
-        (Ok(_), Ok(_)) => Ok(()),
-        (Ok(_), Err(e)) => bail!("tcp={e}"),
-        (Err(e), Ok(_)) => bail!("udp={e}"),
-        (Err(e1), Err(e2)) => bail!("tcp={e1}, udp={e2}"),
-    }
+    res
+}
+
+/// Runs the UDP (or QUIC) and the TCP listener of the entry; a listener that fails to start ends the entry with its
+/// error at once instead of being forgotten while the other one keeps serving.
+async fn both(udp: impl Future<Output = anyhow::Result<()>>, tcp: impl Future<Output = anyhow::Result<()>>) -> anyhow::Result<()> {
+    tokio::try_join!(async { udp.await.map_err(|e| anyhow!("udp={e}")) }, async { tcp.await.map_err(|e| anyhow!("tcp={e}")) }).map(|_| ())
 }
 
 async fn startup_tcp<const N: usize>(config: &ServerConfig<SslConfig>, user_manager: &Arc<ServerUserManager<N>>) -> anyhow::Result<()> {
@@ -166,6 +168,9 @@ async fn startup_udp<const N: usize>(config: &ServerConfig<SslConfig>, user_mana
         info!("Udp server shutdown");
         Ok(())
     } else {
+        if config.quic.is_none() {
+            bail!("mode {} needs a quic section", config.mode);
+        }
         let context: ServerContext<N> = ServerContext::init(config, user_manager.clone())?;
         super::startup_quic(context, config, |c| Ok(PayloadCodec::from(c))).await
     }
